@@ -194,7 +194,8 @@ fn lines_for_range<const N: usize>() {
         }
         j += 1;
     }
-    kani::cover!(n >= 3, "three or more rows");
+    kani::cover!(N < 3 || n >= 3, "three or more rows");
+    kani::cover!(n == 2, "two rows");
     kani::cover!(true, "BSV-END");
     std::mem::forget(v);
 }
@@ -333,15 +334,28 @@ inst!(c04_find_eb_4, eb_row, 4, 8);
 //@ mem_gb: 30
 inst!(c04_lines_for_range_4, lines_for_range, 4, 8);
 
-//@ harness: c04_lines_for_range_3
+//@ harness: c04_lines_for_range_2
 //@ property: C04
 //@ obligation: H-C04-b
 //@ tier: quick
+//@ encodes: BsUnit::{find_lines_for_range, find_place_by_pc, find_place_by_idx}
+//@ symbolic: 2 sorted rows with ties, a non-empty range [begin, end) starting at or above the first row
+//@ bounds: row count 2; unwind 8
+//@ oracle: as c04_lines_for_range_4
+//@ assumes: rows sorted; begin >= first row; begin < end
+//@ timeout: 1200
+//@ mem_gb: 20
+inst!(c04_lines_for_range_2, lines_for_range, 2, 8);
+
+//@ harness: c04_lines_for_range_3
+//@ property: C04
+//@ obligation: H-C04-b
+//@ tier: thorough
 //@ encodes: BsUnit::{find_lines_for_range, find_place_by_pc, find_place_by_idx}
 //@ symbolic: 3 sorted rows with ties, a non-empty range [begin, end) starting at or above the first row
 //@ bounds: row count 3; unwind 8
 //@ oracle: as c04_lines_for_range_4
 //@ assumes: rows sorted; begin >= first row; begin < end
-//@ timeout: 1200
-//@ mem_gb: 20
+//@ timeout: 3600
+//@ mem_gb: 40
 inst!(c04_lines_for_range_3, lines_for_range, 3, 8);
